@@ -335,10 +335,15 @@ func (ipcp *IPCPStateMachine) receiveConfigureRequest(pkt *LCPPacket) error {
 	}
 
 	// Send response
+	respData := SerializeLCPOptions(respOpts)
+	if respCode == LCPCodeConfigAck {
+		// An Ack repeats the request's options exactly as received
+		respData = pkt.Data
+	}
 	resp := &LCPPacket{
 		Code:       respCode,
 		Identifier: pkt.Identifier,
-		Data:       SerializeLCPOptions(respOpts),
+		Data:       respData,
 	}
 	ipcp.sendPacket(ProtocolIPCP, resp.Serialize())
 
